@@ -383,9 +383,12 @@ JoinFrom(from, k, acc, env, d) ==
       IN IF ~step.ok THEN [ok |-> FALSE, maps |-> <<>>]
          ELSE JoinFrom(from, k + 1, step.maps, env, d)
 
-(* all conditions hold (TRUE) / some condition is an error *)
-AllTrue(conds, rowmap, env, d) == \A j \in 1 .. Len(conds) : Truth(CondVal(conds[j], rowmap, env, d))
-AnyErr(conds, rowmap, env, d) == \E j \in 1 .. Len(conds) : IsErr(CondVal(conds[j], rowmap, env, d))
+(* the conjunction of the conditions on one row: "t" all TRUE, "f" some not TRUE, "e" some condition is an error *)
+RECURSIVE CondsVal(_, _, _, _, _, _)
+CondsVal(conds, j, rowmap, env, d, acc) ==
+    IF j > Len(conds) THEN acc
+    ELSE LET c == CondVal(conds[j], rowmap, env, d)
+         IN IF IsErr(c) THEN "e" ELSE CondsVal(conds, j + 1, rowmap, env, d, IF Truth(c) THEN acc ELSE "f")
 
 (* groups: sequence of sequences of row maps, grouped by the values of the key expressions (NULLs together) *)
 RECURSIVE GroupBy(_, _, _, _, _)
@@ -449,16 +452,22 @@ EvalSelect(st, outer, d) ==
     LET base  == IF "row" \in DOMAIN outer THEN outer.row ELSE EmptyRowMap
         env0  == [tabs |-> outer.tabs, row |-> base, grp |-> <<>>]
         joined == JoinFrom(st.from, 1, <<base>>, env0, d)
-        werr  == \E i \in 1 .. Len(joined.maps) : AnyErr(st.where, joined.maps[i], env0, d)
-        kept  == SelectSeq(joined.maps, LAMBDA m : AllTrue(st.where, m, env0, d))
+        wv    == [i \in 1 .. Len(joined.maps) |-> [m |-> joined.maps[i], c |-> CondsVal(st.where, 1, joined.maps[i], env0, d, "t")]]
+        werr  == \E i \in 1 .. Len(wv) : wv[i].c = "e"
+        kept0 == SelectSeq(wv, LAMBDA x : x.c = "t")
+        kept  == [i \in 1 .. Len(kept0) |-> kept0[i].m]
         grouped == Len(st.group) > 0 \/ st.agg
         groups0 == IF Len(st.group) > 0 THEN GroupBy(kept, 1, st.group, <<>>, <<env0, d>>)
                    ELSE IF st.agg THEN << [key |-> <<>>, rows |-> kept] >>
                    ELSE [i \in 1 .. Len(kept) |-> [key |-> <<>>, rows |-> <<kept[i]>>]]
         \* evaluation context of one group: the first row stands for the grouping columns
         CtxOf(g) == [tabs |-> outer.tabs, grp |-> g.rows, row |-> IF Len(g.rows) > 0 THEN g.rows[1] ELSE base]
-        herr  == \E i \in 1 .. Len(groups0) : \E j \in 1 .. Len(st.having) : IsErr(ToCond(d, Eval(st.having[j], CtxOf(groups0[i]), d)))
-        groups == SelectSeq(groups0, LAMBDA g : \A j \in 1 .. Len(st.having) : Truth(ToCond(d, Eval(st.having[j], CtxOf(g), d))))
+        hv    == IF Len(st.having) = 0 THEN [i \in 1 .. Len(groups0) |-> [g |-> groups0[i], c |-> "t"]]
+                 ELSE [i \in 1 .. Len(groups0) |->
+                          [g |-> groups0[i], c |-> LET cx == CtxOf(groups0[i]) IN CondsVal(st.having, 1, cx.row, cx, d, "t")]]
+        herr  == \E i \in 1 .. Len(hv) : hv[i].c = "e"
+        groups1 == SelectSeq(hv, LAMBDA x : x.c = "t")
+        groups == [i \in 1 .. Len(groups1) |-> groups1[i].g]
         items0 == [i \in 1 .. Len(groups) |->
                      [row |-> [j \in 1 .. Len(st.cols) |-> Eval(st.cols[j], CtxOf(groups[i]), d)],
                       key |-> [j \in 1 .. Len(st.order) |-> Eval(st.order[j][1], CtxOf(groups[i]), d)]]]
